@@ -265,7 +265,7 @@ theorem exec_gov {nt : Nat} (s : St) (op : Op) (hm : MInv nt s) (h : GMInv s) : 
         simp only []
         have h' : GMInv { s with cbs := rest } := ⟨h.env, h.cur, h.snap⟩
         exact h'.fin s.cur f.d1 f.d2 (Frame.refl _)
-  | transfer t src dst amt caller recv data =>
+  | transfer t src dst amt caller dk data =>
     simp only [exec]
     split
     · exact h
@@ -279,7 +279,7 @@ theorem exec_gov {nt : Nat} (s : St) (op : Op) (hm : MInv nt s) (h : GMInv s) : 
         split
         · exact ⟨this.env, this.cur, this.snap⟩
         · exact this
-      | posted l d1 d2 => exact afterPosted_gov s t l src dst amt recv data d1 d2 h (fp l d1 d2 hp)
+      | posted l d1 d2 => exact afterPosted_gov s t l src dst amt (recvOf s.env dst dk) data d1 d2 h (fp l d1 d2 hp)
   | vote acc pub caller =>
     simp only [exec]
     split
@@ -315,7 +315,7 @@ theorem exec_gov {nt : Nat} (s : St) (op : Op) (hm : MInv nt s) (h : GMInv s) : 
     split
     · exact h
     · exact h.done _ _ (lockDeposit_frame _ _ _ _ _)
-  | withdraw src dst caller recv =>
+  | withdraw src dst caller =>
     simp only [exec]
     split
     · exact h
@@ -330,7 +330,7 @@ theorem exec_gov {nt : Nat} (s : St) (op : Op) (hm : MInv nt s) (h : GMInv s) : 
         | thr => exact h.throw
         | ret l' b => exact h.throw
         | posted l' d1 d2 =>
-          exact afterPosted_gov s .gas l' s.env.notary (dst.getD src) amt recv .other d1 d2 h (f1.trans (fp l' d1 d2 hp))
+          exact afterPosted_gov s .gas l' s.env.notary (dst.getD src) amt (recvOf s.env (dst.getD src) .null) .other d1 d2 h (f1.trans (fp l' d1 d2 hp))
   | setGpb gas caller =>
     simp only [exec]
     split
@@ -370,7 +370,9 @@ theorem step_gov {nt : Nat} (s : St) (op : Op) (hm : MInv nt s) (h : GMInv s) : 
   unfold step
   split
   · split
-    · exact ⟨h.env, h.cur, h.snap⟩
+    · split
+      · exact ⟨h.env, h.cur, h.snap⟩
+      · exact h
     · exact ⟨h.env, h.cur, h.snap⟩
     · exact h
   · split
@@ -450,7 +452,7 @@ theorem neoPostPersistAll_isSome {nt : Nat} (e : Env) (l : Ledger) (he : EnvOK e
 theorem step_csize (s : St) (op : Op) : (step s op).env.csize = s.env.csize := by
   unfold step
   split
-  · split <;> rfl
+  · (repeat' split) <;> rfl
   · split
     · rfl
     · cases op <;> simp only [exec, St.throw, St.done, afterPosted] <;> (repeat' split) <;> rfl
